@@ -234,16 +234,23 @@ def run_pipeline_sharded(make_cmds, shards=NCPU, timeout=3000):
             procs.append((p1, p2))
         else:
             procs.append((p1, None))
-    lines, errs = [], []
-    for p1, p2 in procs:
+    # all shards are drained concurrently: a shard whose output pipe fills up would otherwise stall until its turn
+    from concurrent.futures import ThreadPoolExecutor
+    def drain(pp):
+        p1, p2 = pp
+        e = []
         if p2:
             out, err = p2.communicate(timeout=timeout)
             p1.wait()
-            if p2.returncode != 0: errs.append("driver exit %d: %s" % (p2.returncode, err[-500:]))
+            if p2.returncode != 0: e.append("driver exit %d: %s" % (p2.returncode, err[-500:]))
         else:
             out = p1.stdout.read().decode("utf-8", "replace"); p1.wait()
-        if p1.returncode != 0: errs.append("harness exit %d" % p1.returncode)
-        lines.extend(out.splitlines())
+        if p1.returncode != 0: e.append("harness exit %d" % p1.returncode)
+        return out.splitlines(), e
+    lines, errs = [], []
+    with ThreadPoolExecutor(max(1, len(procs))) as ex:
+        for out, e in ex.map(drain, procs):
+            lines.extend(out); errs.extend(e)
     return lines, errs
 
 def parse_kv(line):
